@@ -162,6 +162,29 @@ def required_batches(prop, tier, seed, work, res, quick):
             cid = "C09-nest-%s-%d-%d" % (pos, li, n)
             cases.append({"cid": cid, "w": "WNest", "val": {"f": f, "unk": []}, "ord": ORDS[n % 4], "trail": [], "mut": "none"})
             plans[cid] = ("TNestR", "nested-" + pos)
+    # outer required ids missing / present while children carry the same ids
+    leaf_full = {"f": {"1": {"p": 1, "v": [0, 0, 0, 5]}, "64": {"p": 1, "v": list(b"x")}}, "unk": []}
+    for a in (0, 1):
+        for b in (0, 1):
+            for pos in ("list", "ptr", "mapval", "all", "none"):
+                f = {"1": {"p": 1, "v": [0, 0, 0, 9]} if a else {"p": 0}, "64": {"p": 1, "v": list(b"s")} if b else {"p": 0},
+                     "2": {"nil": False, "items": [{"p": 1, "v": leaf_full}] if pos in ("list", "all") else []},
+                     "3": {"p": 1, "v": leaf_full} if pos in ("ptr", "all") else {"p": 0},
+                     "4": {"nil": False, "ents": [[list(b"k"), {"p": 1, "v": leaf_full}]] if pos in ("mapval", "all") else []}}
+                for o in ORDS:
+                    n += 1
+                    cid = "C09-outer-%d%d-%s-%s-%d" % (a, b, pos, o, n)
+                    cases.append({"cid": cid, "w": "WOut", "val": {"f": f, "unk": []}, "ord": o, "trail": [], "mut": "none"})
+                    plans[cid] = ("TOutR", "outer-" + pos)
+    # required nocopy fields: every subset present
+    for a in (0, 1):
+        for b in (0, 1):
+            f = {"1": {"p": 1, "v": list(b"abc")} if a else {"p": 0}, "2": {"nil": not b, "b": [1, 2] if b else []}, "3": {"p": 1, "v": [0, 0, 0, 1]}}
+            for o in ("asc", "desc"):
+                n += 1
+                cid = "C09-nocopy-%d%d-%s-%d" % (a, b, o, n)
+                cases.append({"cid": cid, "w": "WNc", "val": {"f": f, "unk": []}, "ord": o, "trail": [], "mut": "none"})
+                plans[cid] = ("TNcR", "required-nocopy")
     msgs, st = vlib.gen_messages(work, defs_path, cases)
     res.tlc_states += st.get("distinct", 0)
     res.tlc_transitions += st.get("generated", 0)
